@@ -131,7 +131,7 @@ class Frame:
 
 class State:
     __slots__ = ('frames', 'mem', 'pc', 'pcset', 'refine', 'noid', 'ndc', 'just_entered', 'inputs', 'bound',
-                 'result', 'trace', 'ghost')
+                 'result', 'trace', 'ghost', 'just_returned', 'last_ret')
 
     def __init__(self):
         self.frames = []
@@ -147,6 +147,8 @@ class State:
         self.result = None
         self.trace = ()
         self.ghost = {}
+        self.just_returned = False
+        self.last_ret = None
 
     def copy(self):
         s = State()
@@ -162,6 +164,8 @@ class State:
         s.bound = self.bound
         s.trace = self.trace
         s.ghost = dict(self.ghost)
+        s.just_returned = self.just_returned
+        s.last_ret = self.last_ret
         return s
 
 
@@ -190,6 +194,9 @@ class Executor:
         self.quick_ms = self.opts.get('quick_ms', 300)
         self.solvers = self.opts.get('solvers', ('cvc5', 'z3-new'))
         self.purity_violations = []
+        self.fork_sites = {}
+        self._cheap = {}
+        self.fork_in = set(self.opts.get('fork_in', ('(%s.Decimal).decompose' % prog.pkg,)))
         self.global_reads = set()
         self.stop_on_violation = self.opts.get('stop_on_violation', True)
         self.violated = False
@@ -200,6 +207,7 @@ class Executor:
         self.observed = None
         self.concrete_failures = []
         from intrinsics import INTRINSICS
+        import cuts  # noqa: registers the cut accessors
         self.intr = INTRINSICS
         self.base_mem = None
         self._init_globals()
@@ -675,20 +683,74 @@ class Executor:
         raise Unsupported('operand ' + k)
 
     # ------------------------------------------------------------ merge
-    def try_merge(self, base_len, states, fn, J):
+    def _sig_val(self, v, out):
+        if isinstance(v, (bool, T.B)):
+            out.append('b')
+        elif isinstance(v, int):
+            out.append(v if abs(v) > 1 else 's')
+        elif isinstance(v, T.Lin):
+            out.append('s')
+        elif isinstance(v, (list, tuple)):
+            for x in v:
+                self._sig_val(x, out)
+        elif isinstance(v, Ptr):
+            out.append(('p', v.oid, tuple(x if isinstance(x, int) else -1 for x in v.path)))
+        elif isinstance(v, Slice):
+            out.append(('s', v.oid, v.off, v.len, v.cap))
+        elif isinstance(v, Str):
+            out.append(('str', len(v.b)))
+        elif v is None:
+            out.append(None)
+
+    def _signature(self, s, fn, J, base_mem):
+        """cheap key: states with different keys can never merge (different concrete control data)"""
+        out = [len(s.frames)]
+        fr = s.frames[-1]
+        if J == -1:
+            out.append((fr.block, fr.ip, s.last_ret))
+            if s.last_ret is not None:
+                self._sig_val(fr.locals.get(s.last_ret), out)
+        else:
+            n = fn.nphis[J]
+            for ins in fn.blocks[J]['instrs'][:n]:
+                self._sig_val(fr.locals.get(ins['n']), out)
+        for oid in sorted((o for o, v in s.mem.items() if o in base_mem and base_mem[o] is not v), key=str):
+            out.append(('o', oid))
+            self._sig_val(s.mem[oid], out)
+        out.append(tuple(sorted(s.ndc.items())))
+        cuts = s.ghost.get('cuts')
+        if cuts:
+            out.append(('cuts', id(cuts)))
+        try:
+            return hash(tuple(out)), tuple(out)
+        except TypeError:
+            return id(s), None
+
+    def try_merge(self, base_len, states, fn, J, base_mem):
         """merge states that all sit at block J (phis evaluated) of the same frame depth"""
-        out = []
+        groups = {}
+        order = []
         for s in states:
-            merged = False
-            for i, m in enumerate(out):
-                x = self.merge2(base_len, m, s, fn, J)
-                if x is not None:
-                    out[i] = x
-                    merged = True
-                    self.merges += 1
-                    break
-            if not merged:
-                out.append(s)
+            k = self._signature(s, fn, J, base_mem)
+            if k not in groups:
+                groups[k] = []
+                order.append(k)
+            groups[k].append(s)
+        out = []
+        for k in order:
+            merged_list = []
+            for s in groups[k]:
+                merged = False
+                for i, m in enumerate(merged_list):
+                    x = self.merge2(base_len, m, s, fn, J)
+                    if x is not None:
+                        merged_list[i] = x
+                        merged = True
+                        self.merges += 1
+                        break
+                if not merged:
+                    merged_list.append(s)
+            out.extend(merged_list)
         return out
 
     def _control_conflict(self, a, b):
@@ -717,23 +779,39 @@ class Executor:
         if len(s1.frames) != len(s2.frames):
             return None
         f1, f2 = s1.frames[-1], s2.frames[-1]
-        if f1.block != J or f2.block != J or f1.fn is not f2.fn:
+        if J == -1:
+            if f1.fn is not f2.fn or f1.block != f2.block or f1.ip != f2.ip or s1.last_ret != s2.last_ret:
+                return None
+        elif f1.block != J or f2.block != J or f1.fn is not f2.fn:
             return None
         if s1.ndc != s2.ndc or s1.noid != s2.noid and False:
             return None
         suf1 = s1.pc[base_len:]
         suf2 = s2.pc[base_len:]
-        T.set_ctx({})  # guards are built without path-specific refinements
+        # refinements valid on both arms (control-integer conflicts are judged under them)
+        ref = {}
+        for k, v1 in s1.refine.items():
+            v2 = s2.refine.get(k)
+            if v2 is not None:
+                u = T._union(v1, v2)
+                if u != (None, None):
+                    ref[k] = u
+        T.set_ctx(ref)
         g1 = T.band(*suf1) if suf1 else True
         g2 = T.band(*suf2) if suf2 else True
         if g1 is True or g2 is True:
             return None
         try:
             new_locals = dict(f1.locals)
-            n = fn.nphis[J]
-            for ins in fn.blocks[J]['instrs'][:n]:
-                k = ins['n']
-                new_locals[k] = self.merge_val(g1, f1.locals[k], f2.locals[k])
+            if J == -1:
+                k = s1.last_ret
+                if k is not None:
+                    new_locals[k] = self.merge_val(g1, f1.locals[k], f2.locals[k])
+            else:
+                n = fn.nphis[J]
+                for ins in fn.blocks[J]['instrs'][:n]:
+                    k = ins['n']
+                    new_locals[k] = self.merge_val(g1, f1.locals[k], f2.locals[k])
             new_mem = dict(s1.mem)
             for oid, v2 in s2.mem.items():
                 v1 = s1.mem.get(oid, None)
@@ -760,14 +838,6 @@ class Executor:
         m.mem = new_mem
         m.pc = list(s1.pc[:base_len])
         m.pcset = set(x.uid for x in m.pc)
-        # refinements valid on both arms
-        ref = {}
-        for k, v1 in s1.refine.items():
-            v2 = s2.refine.get(k)
-            if v2 is not None:
-                u = T._union(v1, v2)
-                if u != (None, None):
-                    ref[k] = u
         m.refine = ref
         T.set_ctx(m.refine)
         disj = T.bor(g1, g2)
@@ -776,7 +846,9 @@ class Executor:
             m.pcset.add(disj.uid)
         m.noid = max(s1.noid, s2.noid)
         m.ndc = dict(s1.ndc)
-        m.just_entered = True
+        m.just_entered = (J != -1)
+        m.just_returned = (J == -1)
+        m.last_ret = s1.last_ret
         m.inputs = dict(s1.inputs)
         m.inputs.update(s2.inputs)
         m.bound = s1.bound
@@ -835,6 +907,8 @@ class Executor:
         if fr.ret is not None:
             caller.locals[fr.ret] = rv
         caller.ip += 1
+        st.just_returned = True
+        st.last_ret = fr.ret
         return None
 
     def do_panic(self, st, msg, pos):
@@ -859,7 +933,11 @@ class Executor:
         fr = st.frames[-1]
         if st.just_entered:
             st.just_entered = False
-            if stop is not None and len(st.frames) == stop[0] and fr.block == stop[2] and fr.fn is stop[1]:
+            if stop is not None and stop[2] != -1 and len(st.frames) == stop[0] and fr.block == stop[2] and fr.fn is stop[1]:
+                return 'arrived'
+        if st.just_returned:
+            st.just_returned = False
+            if stop is not None and stop[2] == -1 and len(st.frames) == stop[0] - 1:
                 return 'arrived'
         blk = fr.fn.blocks[fr.block]
         ins = blk['instrs'][fr.ip]
@@ -902,9 +980,13 @@ class Executor:
                 values = []
                 pc = list(st.pc)
                 for _ in range(64):
-                    v, model = S.quick_check(pc, 5000, want_model=True)
+                    v, model = S.quick_check(pc, 2000, want_model=True)
+                    if v == 'unknown':
+                        text, em = T.to_smt(pc)
+                        res = S.portfolio(text, sorted(em.vars), 30, self.solvers)
+                        v, model = res['verdict'], res['model']
                     if v != 'sat':
-                        if v == 'unknown':
+                        if v != 'unsat':
                             raise Unsupported('cannot enumerate values of control term')
                         break
                     x = T.eval_int(term, model)
@@ -1053,44 +1135,103 @@ class Executor:
             return
         raise GoPanic('index out of range (symbolic index) with length %d' % n)
 
+    def cheap_region(self, fn, b, J):
+        """a loop-free region that is small and calls nothing but intrinsics / contracts: both arms are
+        simply executed and merged without asking a solver whether each arm is feasible"""
+        key = (fn.name, b)
+        r = self._cheap.get(key)
+        if r is not None:
+            return r
+        seen = set()
+        stack = list(fn.blocks[b]['succs'])
+        n = 0
+        ok = True
+        while stack and ok:
+            x = stack.pop()
+            if x == J or x in seen:
+                continue
+            seen.add(x)
+            for ins in fn.blocks[x]['instrs']:
+                n += 1
+                if ins['op'] == 'Call':
+                    f = ins.get('fn')
+                    name = f['n'] if f and f['k'] == 'f' else None
+                    if f and f['k'] == 'b':
+                        continue
+                    if name is None:
+                        ok = False
+                        break
+                    short = '$pkg.' + name[len(self.pkg):] if name.startswith(self.pkg) else name
+                    if name in self.intr or short in self.intr or name in self.summaries or name in self.cuts:
+                        if short in ('$pkg.check', '$pkg.assume', '$pkg.expectPanic'):
+                            ok = False
+                            break
+                        continue
+                    ok = False
+                    break
+                elif ins['op'] in ('Panic', 'Defer', 'Go'):
+                    ok = False
+                    break
+            if n > 60:
+                ok = False
+            stack.extend(fn.blocks[x]['succs'])
+        self._cheap[key] = ok
+        return ok
+
     # ------------------------------------------------------------ If with merging
     def exec_if(self, st, fr, blk, ins, stop):
         c = self.val(st, fr, ins['x'])
         d = self.decide(st, c)
         fn = fr.fn
         J = None
-        if d is None:
-            J = fn.simple_region(fr.block) if self.opts.get('merge', True) else None
-        if d is None and J is None:
+        loopfree = True
+        if self.opts.get('merge', True) and not getattr(self, 'in_init', False) and fn.name not in self.fork_in:
+            reg = fn.simple_region(fr.block)
+            if reg is not None:
+                J, loopfree = reg
+                if not loopfree and not self.opts.get('merge_loops', False):
+                    J = None
+        if J == -1 and len(st.frames) == 1:
+            J = None
+        if d is None and (J is None or not loopfree or not self.cheap_region(fn, fr.block, J)):
             if not self.feasible(st, c):
                 self.add_pc(st, T.bnot(c))
                 d = False
             elif not self.feasible(st, T.bnot(c)):
                 self.add_pc(st, c)
                 d = True
-        if d is not None:
-            self.jump(st, fr, blk['succs'][0 if d else 1])
-            return None
-        a = st.copy()
-        b = st
-        T.set_ctx(a.refine)
-        self.add_pc(a, c)
-        self.jump(a, a.frames[-1], blk['succs'][0])
-        T.set_ctx(b.refine)
-        self.add_pc(b, T.bnot(c))
-        self.jump(b, b.frames[-1], blk['succs'][1])
-        if J is None:
-            return [a, b]
         depth = len(st.frames)
-        base_len = len(st.pc) - 1   # both arms appended exactly one literal (or a few for 'and')
-        # the common prefix is the pc before the branch literal was added
-        base_len = min(len(a.pc), len(b.pc))
-        while base_len > 0 and (a.pc[base_len - 1] is not b.pc[base_len - 1]):
-            base_len -= 1
         mystop = (depth, fn, J)
-        arrived = []
-        arrived += self.explore(a, mystop)
-        arrived += self.explore(b, mystop)
+        if d is not None:
+            if J is None or loopfree or not self.opts.get('merge_decided', False):
+                self.jump(st, fr, blk['succs'][0 if d else 1])
+                return None
+            # a decided branch over a region with loops: symbolic forks inside are re-merged at its join
+            base_mem = dict(st.mem)
+            base_len = len(st.pc)
+            self.jump(st, fr, blk['succs'][0 if d else 1])
+            arrived = self.explore(st, mystop)
+        else:
+            base_mem = dict(st.mem)
+            a = st.copy()
+            b = st
+            T.set_ctx(a.refine)
+            self.add_pc(a, c)
+            self.jump(a, a.frames[-1], blk['succs'][0])
+            T.set_ctx(b.refine)
+            self.add_pc(b, T.bnot(c))
+            self.jump(b, b.frames[-1], blk['succs'][1])
+            site = (fn.name.split('.')[-1], ins.get('pos'), J, loopfree)
+            self.fork_sites[site] = self.fork_sites.get(site, 0) + 1
+            if J is None:
+                return [a, b]
+            # the common prefix is the pc before the branch literal was added
+            base_len = min(len(a.pc), len(b.pc))
+            while base_len > 0 and (a.pc[base_len - 1] is not b.pc[base_len - 1]):
+                base_len -= 1
+            arrived = []
+            arrived += self.explore(a, mystop)
+            arrived += self.explore(b, mystop)
         if self.violated and self.stop_on_violation:
             raise PathEnd('aborted')
         if not arrived:
@@ -1098,9 +1239,12 @@ class Executor:
         if len(arrived) == 1:
             m = arrived
         else:
-            m = self.try_merge(base_len, arrived, fn, J)
+            m = self.try_merge(base_len, arrived, fn, J, base_mem)
         for x in m:
-            x.just_entered = True
+            if J == -1:
+                x.just_returned = True
+            else:
+                x.just_entered = True
         # hand the (merged) successors back to the enclosing exploration loop
         return m
 
